@@ -7,7 +7,7 @@ pub fn meta() -> PropertyMeta {
     PropertyMeta {
         id: "C15",
         level: "exploration",
-        rule: "histories of 1..40 steps interleaving, for both OPERation and QUEStionable: device-side set_condition(any u16) / set_condition_bits / clear_condition_bits; ENABle / PTRansition / NTRansition writes of 0..65535 (decimal, #H, NR2; 65536 and -1 as rejects) and their queries; [:EVENt]?, :CONDition?, *CLS, STATus:PRESet; values biased to single bits, 0x7FFF, 0x8000, 0xFFFF. Oracle: per-bit latch model (event |= (rise & ptr) | (fall & ntr) with the filters in force at that moment); responses and the raw EventRegister fields compared after every step; both register sets run in one history so that independence is checked. Added: per bit (all 16, both registers) EVERY (PTR, NTR, ENABle) setting x EVERY sequence of up to 5 (6) operations over {set bit, clear bit, read event, read condition, *STB?}. Non-trivial: a condition bit toggles at least twice between two event reads, or a filter is written between two transitions of the same register.",
+        rule: "histories of 1..40 steps interleaving, for both OPERation and QUEStionable: device-side set_condition(any u16) / set_condition_bits / clear_condition_bits / clear_event, with get_summary() and get_condition_bit() compared after every step; ENABle / PTRansition / NTRansition writes of 0..65535 (decimal, #H, NR2; 65536 and -1 as rejects) and their queries; [:EVENt]?, :CONDition?, *CLS, STATus:PRESet; values biased to single bits, 0x7FFF, 0x8000, 0xFFFF. Oracle: per-bit latch model (event |= (rise & ptr) | (fall & ntr) with the filters in force at that moment); responses and the raw EventRegister fields compared after every step; both register sets run in one history so that independence is checked. Added: per bit (all 16, both registers) EVERY (PTR, NTR, ENABle) setting x EVERY sequence of up to 5 (6) operations over {set bit, clear bit, read event, read condition, *STB?}. Non-trivial: a condition bit toggles at least twice between two event reads, or a filter is written between two transitions of the same register.",
         assumptions: &["STATus:PRESet sets enable 0, PTR all ones, NTR 0 and nothing else (the condition register is device state)"],
         run,
     }
@@ -24,6 +24,10 @@ pub fn check(h: &History, obs: &Obs) -> CheckResult {
         for ev in &s.events {
             let r = match ev {
                 DevEvent::SetCond(r, _) | DevEvent::SetBits(r, _) | DevEvent::ClearBits(r, _) => *r as usize,
+                DevEvent::ClearEvent(r) => {
+                    toggles[*r as usize] = 0;
+                    continue;
+                }
             };
             toggles[r] += 1;
             if toggles[r] >= 2 {
